@@ -70,6 +70,9 @@ pub fn check(p: &Pos, rep: &mut Report, rng: &mut StdRng) {
     if rng.gen_range(0..4) == 0 {
         line(p, rep, rng);
     }
+    if rng.gen_range(0..8) == 0 {
+        line_rolled_back_by_the_board(p, rep, rng);
+    }
     // In play an en-passant target implies a half-move clock of 0, but the board takes both from
     // a FEN, board editors write any pair, and the property ranges over position x clock value:
     // the same position with a non-zero clock.
@@ -141,6 +144,53 @@ pub fn line(p: &Pos, rep: &mut Report, rng: &mut StdRng) {
             }
             if rep.samples.len() < 6 && rng.gen_range(0..20) == 0 {
                 rep.sample(json!({"fen": fen, "line": ucis, "made_and_unmade": n}));
+            }
+        }
+    }
+}
+
+/// The board's own "make a line, take it back in reverse order": `make_all_uci` with a list whose
+/// last entry is rejected (a pseudo-legal move that leaves the own king attacked where one exists,
+/// otherwise a move that does not exist) makes every earlier move and must unmake them all again.
+pub fn line_rolled_back_by_the_board(p: &Pos, rep: &mut Report, rng: &mut StdRng) {
+    let fen = p.to_fen();
+    let k = rng.gen_range(1..=60);
+    let policy = gen::POLICIES[rng.gen_range(0..3)];
+    let (ps, ms) = gen::walk(rng, p, policy, k);
+    if ms.is_empty() { return; }
+    // cut the line at the last position that offers an illegal pseudo-legal move
+    let mut cut = ms.len();
+    let mut tail: Option<String> = None;
+    for i in (1..=ms.len()).rev() {
+        let at = &ps[i];
+        let legal = at.legal_moves();
+        if let Some(m) = at.pseudo_moves().into_iter().find(|m| !legal.contains(m)) {
+            cut = i;
+            tail = Some(m.uci());
+            break;
+        }
+    }
+    let pseudo_tail = tail.is_some();
+    let mut ucis: Vec<String> = ms[..cut].iter().map(|m| m.uci()).collect();
+    ucis.push(tail.unwrap_or_else(|| "a1a1".to_string()));
+    let r = guarded_mut(|| {
+        let mut bb = load(p)?;
+        let before = snap(&bb);
+        let res = bb.make_all_uci(&ucis).is_ok();
+        Ok::<_, String>((res, before.diff(&snap(&bb))))
+    });
+    rep.eval();
+    let replay = json!({"kind":"c03-rollback","fen":fen,"moves":ucis});
+    match r {
+        Err(pm) => rep.violation(&format!("rollback-{}", panic_sig(&pm)), format!("make_all_uci panicked from {}: {}", fen, pm), replay),
+        Ok(Err(e)) => rep.violation("load-or-fen-failed", e, replay),
+        Ok(Ok((accepted, d))) => {
+            rep.count(if pseudo_tail { "lines_rolled_back_by_the_board_after_an_illegal_pseudo_legal_move" } else { "lines_rolled_back_by_the_board_after_an_unknown_move" });
+            rep.max("max_rolled_back_line_length", cut as u64);
+            if accepted {
+                rep.inconclusive("make_all_uci accepted a list ending in an illegal move (C13 matter)");
+            } else if !d.is_empty() {
+                rep.violation(&format!("line-not-restored-by-rollback:{}:{}", d, if pseudo_tail { "illegal-pseudo-legal-tail" } else { "unknown-tail" }), format!("make_all_uci made {} moves from {}, rejected the last entry and left {} changed", cut, fen, d), replay);
             }
         }
     }
